@@ -615,6 +615,9 @@ class Engine:
             if st.has(v, name):
                 return [Res(st, st.get(v, name))]
             q = v.cls + "." + name
+            if q in self.R.contracts and self.is_property(q):
+                # a @property of a repo class that is under contract: reading the attribute calls the getter (by its contract)
+                return self.call(st, VBound(v, name), [], {}, node)
             if q in self.R.contracts or q in self.R.specs:
                 return [Res(st, VBound(v, name))]
             if m is not None and name in getattr(m, "methods", {}):
@@ -626,6 +629,12 @@ class Engine:
                     return [Res(st, VBound(v, orig))]
             if self.repo_function(q) is not None:
                 return [Res(st, VBound(v, name))]        # a plain method of the repo class (executed in place when called)
+            if "." in v.cls and is_repo_module(v.cls.rsplit(".", 1)[0]):
+                # not an instance attribute: a class-level constant of the repo class (e.g. a compiled regular expression)
+                try:
+                    return self.getattr(st, VClass(v.cls, None), name, node)
+                except Unsupported:
+                    pass
             raise Unsupported("attribute %s of %r" % (name, v))
         if isinstance(v, VClass):
             q = (v.qname or "?") + "." + name
@@ -1369,6 +1378,15 @@ class Engine:
             if pos < len(names) and names[pos] in st.env:
                 return st.env[names[pos]]
         raise Unsupported("the sidecar contract refers to local variable %r, which the function no longer has" % name)
+
+    def is_property(self, q):
+        """q names a function of the repository decorated with @property"""
+        try:
+            modq, fq = self.split_func(q)
+            fn = Module.load(modq).funcs.get(fq)
+        except Unsupported:
+            return False
+        return fn is not None and any(isinstance(d, ast.Name) and d.id == "property" for d in fn.decorator_list)
 
     def repo_function(self, q):
         """(module, FunctionDef) of a plain repo function / method named q, or None"""
